@@ -1,3 +1,6 @@
 -- Root of the `Frequenz` library: every accepted module is imported here.
 import Frequenz.Model.Prelude
 import Frequenz.Extracted.Bounds
+import Frequenz.Model.Matryoshka
+import Frequenz.Model.JsonUtil
+import Frequenz.Props.C03
